@@ -190,9 +190,11 @@ def c_mol_replace(interp, st, args, kw):
     st.ghost.setdefault("mol_replace_calls", []).append((args[0], src, tgt))
     mm = st.fresh("molecular_mass_of_replaced", z3.RealSort())
     st.assume(mm > 0)
-    return VObj("FormulaStub", {"of": args[0], "replaced": (src.attrs["name"], tgt.attrs["name"]), "atoms": VDict([]),
-                                "mass": st.fresh("mass_of_replaced", z3.RealSort()), "molecular_mass": mm,
-                                "density": args[0].attrs["density"]})
+    r = VObj("FormulaStub", {"of": args[0], "replaced": (src.attrs["name"], tgt.attrs["name"]), "atoms": VDict([]),
+                             "mass": st.fresh("mass_of_replaced", z3.RealSort()), "molecular_mass": mm,
+                             "density": args[0].attrs["density"]})
+    st.ghost.setdefault("mol_replace_results", []).append(r)
+    return r
 
 
 def c_mol_neutron_sld(interp, st, args, kw):
@@ -214,16 +216,18 @@ def _mol_inputs(mode):
         mm = st.fresh("molecular_mass", z3.RealSort())
         rho = st.fresh("density", z3.RealSort())
         st.assume(z3.And(mm > 0, rho > 0))
-        M = VObj("FormulaStub", {"atoms": VDict([]), "molecular_mass": mm, "mass": st.fresh("mass", z3.RealSort()),
-                                 "density": VOpt(z3.BoolVal(False), rho)})
+        M = VObj("FormulaStub", {"atoms": VDict([[table.attrs["T"], 1]] if mode == "tritium" else []), "molecular_mass": mm,
+                                 "mass": st.fresh("mass", z3.RealSort()), "density": VOpt(z3.BoolVal(False), rho)})
         st.ghost["mol_M"] = M
         self = VObj((FASTA, "Molecule"), {})
         name, text = VObj("Arg", {"what": "name"}), VObj("Arg", {"what": "formula"})
         kw = {}
         C = {"self": self, "M": M, "mm": mm, "rho": rho, "mode": mode, "name": name, "text": text, "table": table, "h1": h1}
-        if mode == "cell_volume":
+        if mode in ("cell_volume", "tritium"):
             C["cv"] = kw["cell_volume"] = st.fresh("cell_volume", z3.RealSort())
             st.assume(C["cv"] >= 0)
+            C["tritium"] = (mode == "tritium")
+            C["mode"] = "cell_volume"
         else:
             C["given_density"] = kw["density"] = VObj("Arg", {"what": "density"})
         C["charge"] = kw["charge"] = VObj("Arg", {"what": "charge"})
@@ -246,6 +250,14 @@ def _mol_post(st, interp, C, res):
               z3.BoolVal(len(pargs) == 1 and pargs[0] is C["text"] and set(pkw) == {"natural_density"}
                          and (pkw["natural_density"] is C.get("given_density") if C["mode"] == "density" else pkw["natural_density"] is None)))
     reps = st.ghost.get("mol_replace_calls", [])
+    if C.get("tritium"):
+        # deprecated spelling: T marks the labile hydrogens; it is first rewritten to H[1], everything else as usual
+        ok0 = len(reps) == 3 and reps[0][0] is M and reps[0][1] is C["table"].attrs["T"] and reps[0][2] is C["h1"]
+        st.oblige("post.tritium (deprecated marker of labile hydrogen) is first replaced by H[1] in the parsed formula", z3.BoolVal(ok0))
+        if not ok0:
+            return
+        M = st.ghost["mol_replace_results"][0]
+        reps = reps[1:]
     ok = len(reps) == 2 and all(r[0] is M and r[1] is C["h1"] for r in reps) \
         and reps[0][2] is C["table"].attrs["H"] and reps[1][2] is C["table"].attrs["D"]
     st.oblige("post.H-form = labile H[1] -> H, D-form = labile H[1] -> D, both of the parsed formula", z3.BoolVal(ok))
@@ -265,7 +277,7 @@ def _mol_post(st, interp, C, res):
         mc = st.ghost.get("mol_match_call", [])
         st.oblige("post.D2Omatch is computed from (sld, Dsld)", z3.BoolVal(len(mc) == 2 and mc[0] is a["sld"] and mc[1] is a["Dsld"]))
     if C["mode"] == "cell_volume":
-        cv, mm = C["cv"], C["mm"]
+        cv, mm = C["cv"], (M.attrs["molecular_mass"] if C.get("tritium") else C["mm"])
         st.oblige("post.cell_volume is the caller's", spec.eq_goal(interp, st, a["cell_volume"], cv))
         d = M.attrs["density"]
         dval = d.val if isinstance(d, VOpt) else d
@@ -281,7 +293,7 @@ U_MOLECULE_INIT = [Unit("Molecule.__init__[%s]" % m, FASTA + ".Molecule.__init__
                                    "periodictable.formulas.formula": c_mol_parse, "FormulaStub.replace": c_mol_replace,
                                    "periodictable.nsf.neutron_sld": c_mol_neutron_sld, FASTA + ".D2Omatch": c_mol_d2omatch},
                         writes={"*"}, replay={"module": "c18", "task": "replay"})
-                   for m in ("cell_volume", "density")]
+                   for m in ("cell_volume", "density", "tritium")]
 
 
 # ------------------------------------------------------------------------------ Sequence.__init__
